@@ -1,11 +1,26 @@
 """Dispatcher world: helpers to run a real basana dispatcher on the virtual loop with chooser-controlled handler
-suspension (DESIGN.md 2.2, 4)."""
+suspension (DESIGN.md 2.2, 4).
+
+Clock seam. The library's notion of "now" (basana.core.dt.utc_now) is NOT replaced: its body runs. What is substituted
+is the clock underneath it: the `datetime` attribute of basana.core.dt and basana.core.dispatcher becomes a proxy of the
+datetime module whose datetime.now(tz) / utcnow() / today() read the virtual loop, and a `time` attribute (if one of those
+modules has or gets one) becomes mc.vtime.VirtualTime. A correct refactoring of utc_now (datetime.now(timezone.utc),
+fromtimestamp(time.time(), utc), ...) or of its callers therefore keeps working, and a wrong one (e.g. local wall-clock time
+labelled UTC) is visible when the process's local time zone is not UTC (local_tz()). If the probe after patching shows that
+the library's clock does not follow the virtual loop at all (an unforeseen way of reading the time), the old wholesale
+replacement of utc_now is used as a fall-back and loop.clock_seam says so.
+"""
 import asyncio
+import contextlib
 import datetime
+import os
+import time as _time
 
 from mc.vloop import VLoop, Deadlock, Horizon, StepCap, Livelock
+from mc.vtime import ModuleProxy, VirtualTime
 
 EPOCH = datetime.datetime(2020, 1, 1, tzinfo=datetime.timezone.utc)
+_EPOCH_TS = EPOCH.timestamp()
 
 
 def T(s):
@@ -51,15 +66,126 @@ class Gates:
         return True
 
 
+@contextlib.contextmanager
+def local_tz(name):
+    """Runs the block with the process's local time zone set to `name` (a POSIX TZ string such as 'JST-9' or 'EST5': no
+    zone database needed); None = leave it alone."""
+    if name is None:
+        yield
+        return
+    old = os.environ.get("TZ")
+    os.environ["TZ"] = name
+    _time.tzset()
+    try:
+        yield
+    finally:
+        if old is None:
+            os.environ.pop("TZ", None)
+        else:
+            os.environ["TZ"] = old
+        _time.tzset()
+
+
+class _VMeta(type):
+    def __instancecheck__(cls, obj):
+        return isinstance(obj, datetime.datetime)
+
+    def __subclasscheck__(cls, sub):
+        return issubclass(sub, datetime.datetime)
+
+
+def virtual_datetime_class(vnow):
+    """A stand-in for the class datetime.datetime whose 'what time is it' constructors read vnow() (an aware UTC
+    datetime); everything else, including instances it creates, is the real thing."""
+
+    class VDatetime(datetime.datetime, metaclass=_VMeta):
+        def __new__(cls, *args, **kwargs):
+            return datetime.datetime(*args, **kwargs)
+
+        @classmethod
+        def now(cls, tz=None):
+            v = vnow()
+            if tz is not None:
+                return v.astimezone(tz)
+            return v.astimezone().replace(tzinfo=None)  # naive local time, as the real one (honours TZ / tzset)
+
+        @classmethod
+        def utcnow(cls):
+            return vnow().replace(tzinfo=None)
+
+        @classmethod
+        def today(cls):
+            return cls.now()
+
+    VDatetime.__name__ = "datetime"
+    VDatetime.__qualname__ = "datetime"
+    return VDatetime
+
+
+class ClockSeam:
+    """Installs / removes the virtual clock underneath basana's clock functions."""
+
+    MODULES = ("basana.core.dt", "basana.core.dispatcher")
+
+    def __init__(self, loop, mode):
+        self.loop = loop
+        self.mode = mode  # True / "deep": patch underneath; "replace": replace dt.utc_now wholesale (legacy)
+        self.saved = []
+        self.kind = None
+
+    def vnow(self):
+        return EPOCH + datetime.timedelta(seconds=self.loop.time())
+
+    def _set(self, mod, name, value):
+        self.saved.append((mod, name, getattr(mod, name)))
+        setattr(mod, name, value)
+
+    def install(self):
+        import importlib
+        bdt = importlib.import_module("basana.core.dt")
+        if self.mode != "replace":
+            vdt = virtual_datetime_class(self.vnow)
+            vtime = VirtualTime(lambda: _EPOCH_TS + self.loop.time())
+            for name in self.MODULES:
+                mod = importlib.import_module(name)
+                cur = getattr(mod, "datetime", None)
+                if cur is datetime:
+                    self._set(mod, "datetime", ModuleProxy(datetime, datetime=vdt))
+                elif cur is datetime.datetime:  # from datetime import datetime
+                    self._set(mod, "datetime", vdt)
+                if getattr(mod, "time", None) is _time:
+                    self._set(mod, "time", vtime)
+            self.kind = "underneath"
+            try:
+                probe = bdt.utc_now()
+                off = abs((probe - self.vnow()).total_seconds())
+            except Exception:
+                off = None  # a broken utc_now is the library's business: the run will show it
+            if off is not None and off > 20 * 3600:
+                # the library reads the time in a way this seam does not reach: fall back to replacing utc_now
+                self.remove()
+                self.mode = "replace"
+        if self.mode == "replace":
+            self._set(bdt, "utc_now", self.vnow)
+            self.kind = "utc_now-replaced"
+        return self
+
+    def remove(self):
+        while self.saved:
+            mod, name, val = self.saved.pop()
+            setattr(mod, name, val)
+
+
 def run_on_vloop(main_factory, *, on_step=None, on_quiescent=None, horizon=None, max_steps=200000, patch_clock=True):
     """Runs main_factory(loop) (a coroutine) on a fresh virtual loop. Returns (outcome, exception, loop).
-    outcome in returned / cancelled / raised / deadlock / horizon / stepcap / livelock."""
+    outcome in returned / cancelled / raised / deadlock / horizon / stepcap / livelock.
+    patch_clock: True = virtual clock underneath basana's clock functions (see the module docstring), "replace" = replace
+    basana.core.dt.utc_now itself, False = leave the clock alone. loop.clock_seam tells which one was in force."""
     loop = VLoop()
-    restore = None
+    seam = None
     if patch_clock:
-        from basana.core import dt as bdt
-        restore = bdt.utc_now
-        bdt.utc_now = lambda: EPOCH + datetime.timedelta(seconds=loop.time())
+        seam = ClockSeam(loop, patch_clock).install()
+    loop.clock_seam = seam.kind if seam else None
     exc = None
     try:
         try:
@@ -83,6 +209,6 @@ def run_on_vloop(main_factory, *, on_step=None, on_quiescent=None, horizon=None,
         loop.end_steps = loop.steps
         loop.shutdown()
     finally:
-        if restore is not None:
-            bdt.utc_now = restore
+        if seam is not None:
+            seam.remove()
     return out, exc, loop
